@@ -104,9 +104,11 @@ def _generate_index_expressions(
         return (0,)
 
     if old_shape == new_shape:
-        # Avoid generating modulo expressions for direct pass-through
-        assert len(old_shape) == 1
-        return (index_vars[0],)
+        # Avoid generating modulo expressions for direct pass-through. (A group
+        # of several axes arises for zero-size arrays, whose axes cannot be
+        # split into independent groups.)
+        assert len(index_vars) == len(old_shape)
+        return tuple(index_vars)
 
     old_size_tills = [old_shape[-1] if order == "C" else old_shape[0]]
 
